@@ -187,9 +187,14 @@ Definition resolve_field (k : N) (st : step) (xs : list (N * ext)) : M N :=
   bind (handle_start (PResolve k) xs) (fun sf =>
     match snd st with
     | ROk => bind (run_finish (PResolve k) (rout st) (snd sf)) (fun e2 => ret (fst sf + e2))
-    | RErr | RFatal =>
+    | RErr =>
       (* finish(result, err); panic(err) -> deferred recover, handleFieldError
          (which re-panics for a non-null field: the order model accounts for it) *)
+      bind (run_finish (PResolve k) (rout st) (snd sf)) (fun e2 => ret (fst sf + e2 + 1))
+    | RBad =>
+      (* finish(result, nil); completing the value fails afterwards: the
+         notification is already finished, the recover blocks must not finish
+         it again *)
       bind (run_finish (PResolve k) (rout st) (snd sf)) (fun e2 => ret (fst sf + e2 + 1))
     | RPanic => (* deferred recover: the pending notification is finished with an error *)
       bind (run_finish (PResolve k) (rout st) (snd sf)) (fun e2 => ret (fst sf + e2 + 1))
